@@ -124,6 +124,29 @@ var BlockMutations = []BlockMutation{
 			Address: b.Address, ToAddress: w.Users[0].Address, Amount: big.NewInt(1), TokenStandard: types.ZnnTokenStandard, Height: b.Height, MomentumAcknowledged: b.MomentumAcknowledged})
 		return true
 	}},
+	// a well-linked batch: the smuggled block takes the carrier's place in the account chain and the
+	// carrier follows it, correctly hashed and (for users) signed by the owner
+	{"descendants-smuggled-linked", true, func(w *World, b *nom.AccountBlock) bool {
+		if len(b.DescendantBlocks) != 0 || b.Height == 0 {
+			return false
+		}
+		d := &nom.AccountBlock{Version: 1, ChainIdentifier: b.ChainIdentifier, BlockType: nom.BlockTypeUserSend,
+			Address: b.Address, ToAddress: w.Users[w.R.T.Choose(len(w.Users))].Address, Amount: big.NewInt(int64(1 + w.R.T.Choose(1000))),
+			TokenStandard: types.ZnnTokenStandard, Height: b.Height, PreviousHash: b.PreviousHash, MomentumAcknowledged: b.MomentumAcknowledged}
+		if types.IsEmbeddedAddress(b.Address) {
+			d.BlockType = nom.BlockTypeContractSend
+		}
+		d.Hash = d.ComputeHash()
+		b.DescendantBlocks = []*nom.AccountBlock{d}
+		b.Height++
+		b.PreviousHash = d.Hash
+		b.Hash = b.ComputeHash()
+		if k := w.Keys[b.Address]; k != nil {
+			b.Signature = k.Sign(b.Hash.Bytes())
+			b.PublicKey = append([]byte(nil), k.Public...)
+		}
+		return true
+	}},
 	{"descendants-dropped", true, func(w *World, b *nom.AccountBlock) bool {
 		if len(b.DescendantBlocks) == 0 {
 			return false
